@@ -27,6 +27,8 @@ func runC16(c *eng.Ctx) {
 	// (shared with C05) a failed append leaves nothing behind that a later conditional publish could land behind
 	c.Rule("R05.1", "K2")
 	ruleLogThenIndex(c)
+	c.Rule("R16.5", "K1")
+	rulePublishWaitsWhereTheAckDecides(c)
 	// ---- R16.1
 	c.Rule("R16.1", "K1")
 	if fn := c.Fn(cl + "newMessageSetFromProto"); fn != nil {
